@@ -58,6 +58,12 @@ type Node struct {
 	Kids   []*Node
 	Next   [2]*Edge
 	Depth  int
+	// A leaf is a subschema {"properties":{"f<ID>":false}} without references; hops
+	// refer to leaves IN PLACE (allOf:[{$ref}]), so a leaf applies at the hop's own
+	// instance location: the probe {"f<ID>":1} there is invalid iff the reference
+	// reaches this leaf.
+	Leaf    bool
+	InPlace *Edge
 }
 
 // Edge is one reference.
@@ -89,6 +95,9 @@ type UniOpts struct {
 	Draft7   bool
 	MaxDocs  int
 	Dangling bool // plant exactly one dangling reference in a document that must be loaded
+	// RootInPlace: give the root hop an in-place reference into another document where possible
+	// (the root then depends, at its own instance location, on what the Loader returns).
+	RootInPlace bool
 }
 
 func (u *Universe) defsKey() string {
@@ -118,6 +127,9 @@ func GenUniverse(c *Ctx, o UniOpts) *Universe {
 		u.Docs = append(u.Docs, d)
 		root := &Node{Doc: d, IsRes: true}
 		root.Res = root
+		if i > 0 && c.W(4) == 0 {
+			root.Leaf = true // a leaf document: referred to in place, without fragment
+		}
 		var base *url.URL
 		if i == 0 && !rootHasBase {
 			u.BaseURI = ""
@@ -204,6 +216,36 @@ func GenUniverse(c *Ctx, o UniOpts) *Universe {
 			parent.Kids = append(parent.Kids, n)
 			u.addNode(d, n)
 		}
+		// Leaves.
+		for j := c.W(3); j > 0; j-- {
+			var parents []*Node
+			for _, n := range d.Nodes {
+				if !n.Leaf && n.Depth < 3 {
+					parents = append(parents, n)
+				}
+			}
+			if len(parents) == 0 {
+				parents = []*Node{d.Root}
+			}
+			parent := parents[c.W(len(parents))]
+			n := &Node{Doc: d, Parent: parent, Depth: parent.Depth + 1, Leaf: true}
+			n.Key = fmt.Sprintf("leaf%d", j)
+			n.Res = parent.Res
+			n.Base = parent.Res.Base
+			if c.W(4) == 0 {
+				id := pick(c, absIDPool)
+				if c.W(2) == 0 && n.Base.IsAbs() && n.Base.Opaque == "" {
+					id = "l-" + pick(c, relIDPool)
+				}
+				nb := n.Base.ResolveReference(mustParse(id))
+				if nb.IsAbs() && nb.Fragment == "" && !used[nb.String()] {
+					used[nb.String()] = true
+					n.IsRes, n.IDText, n.Base, n.Res = true, id, nb, n
+				}
+			}
+			parent.Kids = append(parent.Kids, n)
+			u.addNode(d, n)
+		}
 		if u.Draft7 && i > 0 && c.W(2) == 0 {
 			d.NoDraft = true
 		}
@@ -228,7 +270,16 @@ func GenUniverse(c *Ctx, o UniOpts) *Universe {
 		}
 	}
 	// Edges.
+	var leaves []*Node
 	for _, n := range u.Nodes {
+		if n.Leaf {
+			leaves = append(leaves, n)
+		}
+	}
+	for _, n := range u.Nodes {
+		if n.Leaf {
+			continue
+		}
 		for slot := 0; slot < 2; slot++ {
 			if c.W(4) == 0 {
 				continue
@@ -240,9 +291,32 @@ func GenUniverse(c *Ctx, o UniOpts) *Universe {
 				} else {
 					t = u.Nodes[c.W(len(u.Nodes))]
 				}
+				if t.Leaf {
+					continue
+				}
 				if e := u.makeEdge(c, n, slot, t); e != nil {
 					n.Next[slot] = e
 				}
+			}
+		}
+		if len(leaves) > 0 && c.W(3) == 0 {
+			for try := 0; try < 3 && n.InPlace == nil; try++ {
+				if e := u.makeEdge(c, n, 2, leaves[c.W(len(leaves))]); e != nil {
+					n.InPlace = e
+				}
+			}
+		}
+	}
+	if root := u.Docs[0].Root; o.RootInPlace && root.InPlace == nil {
+		var remote []*Node
+		for _, l := range leaves {
+			if l.Doc != root.Doc {
+				remote = append(remote, l)
+			}
+		}
+		for try := 0; try < 4 && len(remote) > 0 && root.InPlace == nil; try++ {
+			if e := u.makeEdge(c, root, 2, remote[c.W(len(remote))]); e != nil {
+				root.InPlace = e
 			}
 		}
 	}
@@ -464,7 +538,7 @@ func (u *Universe) Closure() map[int]bool {
 		d := u.Docs[work[0]]
 		work = work[1:]
 		for _, n := range d.Nodes {
-			for _, e := range n.Next {
+			for _, e := range []*Edge{n.Next[0], n.Next[1], n.InPlace} {
 				if e == nil || e.To == nil {
 					continue
 				}
@@ -484,14 +558,14 @@ func (u *Universe) plantDangling(c *Ctx) {
 	cl := u.Closure()
 	var hosts []*Node
 	for _, n := range u.Nodes {
-		if cl[n.Doc.Index] {
+		if cl[n.Doc.Index] && !n.Leaf {
 			hosts = append(hosts, n)
 		}
 	}
 	h := hosts[c.W(len(hosts))]
 	slot := c.W(2)
 	e := &Edge{From: h, Slot: slot}
-	kinds := []string{"missing-anchor", "missing-pointer", "non-schema-pointer", "index-out-of-range"}
+	kinds := []string{"missing-anchor", "missing-pointer", "non-schema-pointer", "index-out-of-range", "absent-keyword"}
 	if h.Res.Base.IsAbs() && h.Res.Base.Opaque == "" {
 		kinds = append(kinds, "absent-document", "missing-anchor-remote")
 	}
@@ -504,7 +578,10 @@ func (u *Universe) plantDangling(c *Ctx) {
 	case "non-schema-pointer":
 		e.Text = "#/properties/v/const"
 	case "index-out-of-range":
-		e.Text = "#/allOf/0"
+		e.Text = "#/anyOf/0"
+	case "absent-keyword":
+		// a schema-valued keyword that the resource does not have
+		e.Text = "#/" + pick(c, []string{"not", "if", "then", "additionalProperties", "contains", "propertyNames", "unevaluatedItems", "contentSchema"})
 	case "absent-document":
 		e.Text = "http://nowhere.test/absent.json"
 	case "missing-anchor-remote":
@@ -533,12 +610,18 @@ func (u *Universe) renderNode(n *Node) map[string]any {
 		}
 	}
 	props := map[string]any{"v": map[string]any{"const": n.Marker}}
+	if n.Leaf {
+		props = map[string]any{n.leafKey(): false}
+	}
 	for s, e := range n.Next {
 		if e != nil {
 			props[slotName[s]] = map[string]any{"$ref": e.Text}
 		}
 	}
 	o["properties"] = props
+	if n.InPlace != nil {
+		o["allOf"] = []any{map[string]any{"$ref": n.InPlace.Text}}
+	}
 	if len(n.Kids) > 0 {
 		defs := map[string]any{}
 		for _, k := range n.Kids {
@@ -548,6 +631,8 @@ func (u *Universe) renderNode(n *Node) map[string]any {
 	}
 	return o
 }
+
+func (n *Node) leafKey() string { return fmt.Sprintf("f%d", n.ID) }
 
 func (u *Universe) render() {
 	for _, d := range u.Docs {
@@ -626,6 +711,14 @@ func (u *Universe) LoaderFor(c *Ctx, plan *FaultPlan, log *LoaderLog) jsonschema
 			case "self":
 				log.Fired = append(log.Fired, "self")
 				di = 0
+			case "same-id":
+				// a different document that declares the $id of the root document
+				if c0 := u.Docs[0].Canon; u.Docs[0].Root.Base.IsAbs() {
+					log.Fired = append(log.Fired, "same-id-as-root")
+					var sch jsonschema.Schema
+					json.Unmarshal([]byte(fmt.Sprintf(`{"$id":%q,"properties":{"f0":false}}`, c0)), &sch)
+					return &sch, nil
+				}
 			case "wrong":
 				log.Fired = append(log.Fired, "wrong-document")
 				var sch jsonschema.Schema
@@ -714,6 +807,46 @@ func (u *Universe) Probes(c *Ctx, extra int) []Probe {
 		out = append(out, Probe{p, n})
 	}
 	return out
+}
+
+// InPlaceProbe checks one in-place reference: at the location reached by Path the
+// leaf Applied must apply and the leaf Other must not.
+type InPlaceProbe struct {
+	Path    []int
+	Holder  *Node
+	Applied *Node
+	Other   string // key of a leaf that does not apply there
+}
+
+// InPlaceProbes returns a probe for every reachable hop that has an in-place reference.
+func (u *Universe) InPlaceProbes(probes []Probe) []InPlaceProbe {
+	var out []InPlaceProbe
+	seen := map[*Node]bool{}
+	for _, p := range probes {
+		h := p.Target
+		if h.InPlace == nil || h.InPlace.To == nil || seen[h] {
+			continue
+		}
+		seen[h] = true
+		other := "f99999"
+		for _, n := range u.Nodes {
+			if n.Leaf && n != h.InPlace.To {
+				other = n.leafKey()
+				break
+			}
+		}
+		out = append(out, InPlaceProbe{Path: p.Path, Holder: h, Applied: h.InPlace.To, Other: other})
+	}
+	return out
+}
+
+// Instance builds the instance that carries key at the probed location.
+func (p InPlaceProbe) Instance(key string) any {
+	var v any = map[string]any{key: 1.0}
+	for i := len(p.Path) - 1; i >= 0; i-- {
+		v = map[string]any{slotName[p.Path[i]]: v}
+	}
+	return v
 }
 
 // Instance builds the probe instance carrying marker m.
